@@ -198,7 +198,7 @@ def grid_alphabet(r):
         {"op": "red", "sel": [0.0, 0.7]}, {"op": "ds", "n": 2}, {"op": "mf", "d": 3.0, "a": 4.0},
         {"op": "crop", "lo": 0.4, "hi": 0.99},
         {"op": "al", "mode": "s", "ref_seed": 5, "grid": True, "n": -1}, {"op": "ao", "ref": ref},
-        {"op": "pj", "plane": "xy"}, {"op": "cp"},
+        {"op": "pj", "plane": "xy"}, {"op": "cp"}, {"op": "cp", "side": True}, {"op": "tf", "mode": "L", "T": T1, "lp": True},
         {"op": "rd", "v": "pos"}, {"op": "rd", "v": "quat"}, {"op": "rd", "v": "se3"}, {"op": "chk"},
         {"op": "red", "how": "rep"}, {"op": "red", "how": "rev"}, {"op": "red", "how": "neg"},
     ]
@@ -273,7 +273,7 @@ def rand_ops(r, n, timed, length):
                 if abs(sc - 1.0) > 1e-9:
                     a[:3, :3] *= r.choice([0.5, 2.0, 1.25]) / sc
                     T = a.flatten().tolist()
-            ops.append({"op": "tf", "mode": mode, "T": T})
+            ops.append({"op": "tf", "mode": mode, "T": T, **({"lp": True} if mode == "L" and r.random() < 0.4 else {})})
         elif k < 0.52:
             ops.append({"op": "sc", "s": r.choice([2.0, 0.5, 10 ** r.uniform(-3, 3)])})
         elif k < 0.58:
@@ -297,7 +297,7 @@ def rand_ops(r, n, timed, length):
         elif k < 0.90:
             ops.append({"op": "pj", "plane": r.choice(["xy", "xz", "yz"])})
         elif k < 0.94:
-            ops.append({"op": "cp"})
+            ops.append({"op": "cp", **({"side": True} if r.random() < 0.5 else {})})
         else:
             ops.append({"op": "chk"})
     return ops
@@ -510,7 +510,9 @@ def run_impl(case):
             elif k == "tf":
                 T = np.array(op["T"], dtype=float).reshape(4, 4)
                 tok = f"tf {op['mode']} {pose_toks(T)} {norm_tok(T)}"
-                obj.transform(T, right_mul=op["mode"] in "RP", propagate=op["mode"] == "P")
+                # (`lp`: a left multiplication with the propagate flag given — evo_traj passes its --propagate_transform flag
+                # for both sides; propagation only exists for right multiplication, so this is still T*P for every pose)
+                obj.transform(T, right_mul=op["mode"] in "RP", propagate=op["mode"] == "P" or (op["mode"] == "L" and bool(op.get("lp"))))
             elif k == "sc":
                 tok = f"sc {rat(op['s'])}"
                 obj.scale(op["s"])
@@ -587,7 +589,16 @@ def run_impl(case):
                 tok = "cp"
                 new = copy.deepcopy(obj)
                 info["same_object"] = new is obj
-                obj = new
+                if op.get("side"):
+                    # the copy is modified in place (projection writes into the pose matrices) and dropped; the history goes
+                    # on with the ORIGINAL, which must show what it showed before (copies are independent)
+                    try:
+                        new.project(Plane.XY)
+                        new.transform(np.array([[0.0, -1.0, 0.0, 1.0], [1.0, 0.0, 0.0, 2.0], [0.0, 0.0, 1.0, 3.0], [0.0, 0.0, 0.0, 1.0]]))
+                    except Exception:  # noqa: BLE001  (a second projection of a projected copy is refused)
+                        pass
+                else:
+                    obj = new
             elif k == "rd":
                 v = op["v"]
                 tok = f"rd {v}"
